@@ -78,7 +78,6 @@ Section ChunkProofs.
       destruct H as [(? & ? & ? & ?) | (? & ? & ? & ?)].
 
     Hypothesis Hne : rows <> [].
-    Hypothesis HT : T <> 0.
     Hypothesis Hok : c_ok T rows.
 
     Lemma c_in_bounds r : In r rows -> c_lp r <= Tp /\ c_chunk r <= Tp /\ c_rp r <= Tp /\ c_right r <= Tp.
@@ -158,8 +157,8 @@ Section ChunkProofs.
     Proof.
       destruct (c_buffers_ok d) as (bufs & Hb & Hbufs).
       unfold chunk_rows, c_out.
-      destruct (Nat.eqb_spec (length rows * T) 0) as [E|_].
-      { apply Nat.eq_mul_0 in E as [E|E]; [|contradiction]. apply length_zero_iff_nil in E. contradiction. }
+      destruct (Nat.eqb_spec (length rows) 0) as [E|_].
+      { apply length_zero_iff_nil in E. contradiction. }
       rewrite Hb. cbn [bind]. cbv zeta. fold Tp.
       (* the selected cells *)
       erewrite (map_ext_in c_cells
